@@ -260,6 +260,9 @@ def _build():
     M4 = mixed("M4", [E("Ert", triangle, 2, (2,), contravariant_piola, HDiv), E("Ep4", triangle, 2)])
     w4 = Coefficient(FunctionSpace(dom3, M4), count=8)
     SK["piola_on_manifold"] = [(w4[k] * w4[3], 3, 2) for k in range(4)] + [(w4[k] * w4[k], 3, 2) for k in range(4)]
+    # the same mixed element on a flat mesh (physical size of the Piola block: 2) ...
+    w4f = Coefficient(FunctionSpace(dom, M4), count=18)
+    SK["piola_flat"] = [(w4f[k] * w4f[2], 2, 2) for k in range(3)] + [(w4f[k] * w4f[k], 2, 2) for k in range(3)]
     M5 = mixed("M5", [E("Eb5", triangle, 2, (), identity_pullback, H1, (), 1), E("Ep5", triangle, 2)])
     w5 = Coefficient(FunctionSpace(dom, M5), count=9)
     SK["enriched_sub_element"] = [(w5[0] * w5[0] * w5[1], 2, 2), (w5[1] ** 2, 2, 2), (w5[0], 2, 2)]
@@ -409,6 +412,18 @@ def piola_on_manifold(p: int, q: int) -> int:
     """
     _set(Ert=p, Ep4=q)
     return _worst("piola_on_manifold")
+
+
+def piola_flat_then_manifold(p: int, q: int) -> int:
+    """
+    pre: 0 <= p <= 5 and 0 <= q <= 5
+    post: _ >= 0
+    """
+    # one element object used on a flat mesh first and on an immersed mesh afterwards, in one process
+    _set(Ert=p, Ep4=q)
+    a = _worst("piola_flat")
+    b = _worst("piola_on_manifold")
+    return a if a < b else b
 
 
 def enriched_sub_element(p: int, s: int, q: int) -> int:
